@@ -7,9 +7,9 @@ import c10, c06, common
 
 
 def run(tier, seed, replay):
-    n = 60 if tier == 'quick' else 1500
+    n = 60 if tier == 'quick' else 600
     gate = common.proof_gate('C03', ['Spec/Entries.v', 'Spec/Image.v', 'Proofs/SpecProps.v', 'Props/C03.v'])
-    rc = c10.run_foreign('C03', tier, seed, ('valid', 'map'), n, 'Checker soundness theorems (Props/C03.v) + every flushed snapshot judged by the extracted specification checker validb; get_mapping vs the specification reader.', plain_n=(90 if tier == 'quick' else 1500), gate=gate)
+    rc = c10.run_foreign('C03', tier, seed, ('valid', 'map'), n, 'Checker soundness theorems (Props/C03.v) + every flushed snapshot judged by the extracted specification checker validb; get_mapping vs the specification reader.', plain_n=(90 if tier == 'quick' else 600), gate=gate)
     if rc != 0:
         return rc
     # concurrent histories: the file after the closing flush_meta must be valid too (evidence of this part replaces the first)
